@@ -28,3 +28,89 @@ Example C07_nonvacuous :
                  false nnull [ns; JText (s_ "t") (s_ "t")] nnull in
   ready el = true /\ jsx_free el = false /\ jsx_free (fst (lower_el E el st0)) = true.
 Proof. vm_compute. repeat split; reflexivity. Qed.
+
+(* ---- module level: the traversal reaches every JSX expression ----------------------------- *)
+From VJ Require Import Model.Util Model.Visitor Model.Types Lemmas.VisitPlain Lemmas.IdentityProofs Lemmas.NodeInd.
+
+(* Visiting ANY grammatical tree (Spec/Plain.gram: JSX node kinds only where the JSX grammar
+   puts them - what the parser produces, re-checked on every input of the correspondence run)
+   in an expression / statement position yields a tree without any JSX node, whatever the
+   nesting of JSX inside expressions inside JSX, provided the resolveType hooks neither add
+   JSX nor touch the pending declarations (they are the identity when the option is off:
+   C07_hooks_plain_when_off).  The declarations the traversal injects at the head of statement
+   lists and arrow bodies are JSX-free too ([Sj]). *)
+Theorem C07_traversal_is_jsx_free :
+  forall (E : env) (hook_call hook_declarator : node -> st -> node * st),
+    (forall n s, Sj s -> Sj (snd (hook_call n s))) ->
+    (forall n s, Sj s -> Sj (snd (hook_declarator n s))) ->
+    (forall n s, jsx_free n = true -> jsx_free (fst (hook_call n s)) = true) ->
+    (forall n s, jsx_free n = true -> jsx_free (fst (hook_declarator n s)) = true) ->
+    forall (n : node) (m : mode) (s : st),
+      Sj s -> gram PExpr n = true -> m <> MNoLower ->
+      jsx_free (fst (visit E hook_call hook_declarator m n s)) = true
+      /\ Sj (snd (visit E hook_call hook_declarator m n s)).
+Proof.
+  intros E hc hd H1 H2 H3 H4 n m s HS G Hm.
+  destruct (visit_plain E hc hd H1 H2 H3 H4 n m s HS) as (A & B & _).
+  split; [exact (B G Hm)|exact A].
+Qed.
+Print Assumptions C07_traversal_is_jsx_free.
+
+(* the whole module, imports / helper / hoisted declarations included *)
+Theorem C07_module_is_jsx_free :
+  forall (E : env) (hook_call hook_declarator : node -> st -> node * st) (collect : node -> st -> st),
+    (forall n s, Sj s -> Sj (snd (hook_call n s))) ->
+    (forall n s, Sj s -> Sj (snd (hook_declarator n s))) ->
+    (forall n s, jsx_free n = true -> jsx_free (fst (hook_call n s)) = true) ->
+    (forall n s, jsx_free n = true -> jsx_free (fst (hook_declarator n s)) = true) ->
+    (forall n s, Sj s -> Sj (collect n s)) ->
+    forall m : node,
+      module_shape m = true -> gram PExpr m = true ->
+      jsx_free (fst (transform_module E hook_call hook_declarator collect m)) = true.
+Proof. intros E hc hd c H1 H2 H3 H4 H5 m. exact (module_plain E hc hd H1 H2 H3 H4 c H5 m). Qed.
+Print Assumptions C07_module_is_jsx_free.
+Check C07_module_is_jsx_free :
+  forall (E : env) (hook_call hook_declarator : node -> st -> node * st) (collect : node -> st -> st),
+    (forall n s, Sj s -> Sj (snd (hook_call n s))) ->
+    (forall n s, Sj s -> Sj (snd (hook_declarator n s))) ->
+    (forall n s, jsx_free n = true -> jsx_free (fst (hook_call n s)) = true) ->
+    (forall n s, jsx_free n = true -> jsx_free (fst (hook_declarator n s)) = true) ->
+    (forall n s, Sj s -> Sj (collect n s)) ->
+    forall m : node,
+      module_shape m = true -> gram PExpr m = true ->
+      jsx_free (fst (transform_module E hook_call hook_declarator collect m)) = true.
+
+(* with resolveType off the real hooks satisfy the hypotheses outright, so the model's whole
+   transform maps every grammatical module to a JSX-free one *)
+Theorem C07_module_is_jsx_free_when_off :
+  forall (E : env) (m : node),
+    o_resolve_type (e_opts E) = false ->
+    module_shape m = true -> gram PExpr m = true ->
+    jsx_free (fst (transform_module E (hook_call E) (hook_declarator E) (collect_ts_decls E subs) m)) = true.
+Proof.
+  intros E m Hoff. apply C07_module_is_jsx_free; intros n s H.
+  - rewrite (hook_call_off E Hoff). exact H.
+  - rewrite (hook_declarator_off E Hoff). exact H.
+  - rewrite (hook_call_off E Hoff). exact H.
+  - rewrite (hook_declarator_off E Hoff). exact H.
+  - rewrite (collect_off E Hoff). exact H.
+Qed.
+Print Assumptions C07_module_is_jsx_free_when_off.
+
+(* non-vacuity: JSX inside an expression inside JSX inside an arrow body, an assignment that
+   forces a hoisted capture, an object-slots temporary *)
+Example C07_module_nonvacuous :
+  let E := {| e_opts := {| o_transform_on := false; o_optimize := true; o_merge_props := true;
+                           o_object_slots := true; o_pragma := None; o_resolve_type := false; o_npat := 0 |};
+              e_unres := 1; e_matches := []; e_html := [s_ "div"]; e_svg := []; e_comments := [] |} in
+  let x := Ident (s_ "x") 2 false in
+  let inner := JsxE (Ident (s_ "b") 1 false) [] true nnull [] nnull in
+  let comp := JsxE (Ident (s_ "A") 2 false) [] false nnull [JExprC (Call false 0 (Ident (s_ "f") 1 false) [] nnull)] nnull in
+  let outer := JsxE (Ident (s_ "div") 1 false) [JAttr (IdName (s_ "icon")) inner] false nnull
+                    [JExprC (Cond x comp Null); JText (s_ "t") (s_ "t")] nnull in
+  let stmt := gobj "ExpressionStatement" [fld "expression" (Arrow 3 [] outer false false nnull nnull)] in
+  let m := NObj [Field (s_ "type") (NScalar (JStr (s_ "Module"))); Field (s_ "body") (NArr [stmt]);
+                 Field (s_ "interpreter") (NScalar JNull)] in
+  module_shape m = true /\ gram PExpr m = true /\ jsx_free m = false
+  /\ jsx_free (fst (transform_module E (hook_call E) (hook_declarator E) (collect_ts_decls E subs) m)) = true.
+Proof. vm_compute. repeat split; reflexivity. Qed.
